@@ -619,11 +619,11 @@ Definition g_methods : table := [
     IAcc F_ptrGen_elem false;
     IAcc F_pkg_anyRuneGen false;
     ICall "g.elem.value"]);
-  (* strings.go:265 *)
+  (* strings.go:266 *)
   ("regexpSliceGen.String", [
     IAcc F_regexpGen_expr false;
     ICall "fmt.Sprintf"]);
-  (* strings.go:296 *)
+  (* strings.go:297 *)
   ("regexpSliceGen.value", [
     IAcc F_regexpGen_syn false;
     IAcc F_pkg_anyRuneGen false;
@@ -652,11 +652,11 @@ Definition g_methods : table := [
     ICall "b.Bytes";
     IAcc F_regexpGen_re false;
     ICall "g.re.Match"]);
-  (* strings.go:262 *)
+  (* strings.go:263 *)
   ("regexpStringGen.String", [
     IAcc F_regexpGen_expr false;
     ICall "fmt.Sprintf"]);
-  (* strings.go:293 *)
+  (* strings.go:294 *)
   ("regexpStringGen.value", [
     IAcc F_regexpGen_syn false;
     IAcc F_pkg_anyRuneGen false;
@@ -786,8 +786,8 @@ Definition g_methods : table := [
     ICall "repeat.more";
     IAcc F_stringGen_elem false;
     ICall "g.elem.value";
-    ICall "b.Len";
     ICall "utf8.RuneLen";
+    ICall "b.Len";
     ICall "repeat.reject";
     ICall "b.WriteRune";
     ICall "b.String"])
